@@ -28,7 +28,7 @@ CLAIMED = {
             "DESIGN.md §3 C04"),
     "C05": ("exploration",
             "reference-model monitor at the API boundary: RFC 3986 + RFC 6901 oracle gives the designated sub-document, compared (after the kind's codec) with what each Resolve* entry point returns for three root representations; root snapshot before/after",
-            "Up to 60 references per generated world - to every element reachable by containment, with names needing ~0/~1/percent escapes and escaped-twin names, in root/sibling/sub/parent/http documents, plus dangling pointers and documents - are resolved through Resolve{Ref,Parameter,Response,PathItem,Items}[WithBase] with the root as typed object, generic JSON and location only.",
+            "Up to 60 references per generated world - to every element reachable by containment, with names needing ~0/~1/percent escapes and escaped-twin names, in root/sibling/sub/parent/http documents, plus dangling pointers and documents, and schemas that are exactly {} (definition, property, allOf member, items, additionalProperties) - are resolved through Resolve{Ref,Parameter,Response,PathItem,Items}[WithBase] with the root as typed object, generic JSON and location only.",
             "Expected value = designated JSON pushed through the kind's own codec; the zero Ref{} is left out.",
             "DESIGN.md §3 C05"),
     "C08": ("fault_enumeration",
@@ -78,12 +78,12 @@ CLAIMED = {
             "DESIGN.md §3 C13"),
     "C14": ("exploration",
             "reference-model monitor: JSON(v) before vs after a real gob encode/decode, compared as JSON values and classified per member/value class",
-            "Generated documents with gob-fragile content (nested nulls and empty containers in free-form payloads, zero-valued validations on all carriers, the security shapes absent/[]/[{}]/empty scope lists, union types, references) are decoded, sent through encoding/gob and compared with their pre-transport JSON; two genuine baseline defects (zero validations, empty arrays) are listed as known findings by value class so any other loss is still reported.",
+            "Generated documents with gob-fragile content (nested nulls and empty containers in free-form payloads, zero-valued validations on all carriers, the security shapes absent/[]/[{}]/empty scope lists, free-text scope names (blanks, tabs, empty), union types, references) are decoded, sent through encoding/gob and compared with their pre-transport JSON; two genuine baseline defects (zero validations, empty arrays) are listed as known findings by value class so any other loss is still reported.",
             "Documents the JSON codec itself rejects are skipped; trusts encoding/json for the comparison form.",
             "DESIGN.md §3 C14"),
     "C16": ("exploration",
             "history monitor: every call of a generated call history over content-varying versions of the same URLs is judged by the independent oracles (O-DEN, designated sub-document) against the version it was given; loader event log per call; invariant hook H4 on the package-level cache at every quiescent point",
-            "Histories of 20 (thorough 60) public calls over three versions of a world that share every URL and the pseudo root but differ at every node, with the package-level loader swapped between calls and a caller-reused option structure; anything remembered from an earlier call shows up as a wrong marker, a missing loader request, a changed option or a changed package cache (keys, identity, JSON vs pinned meta-schemas); calls with nil options must read relative references from the working directory whatever earlier calls walked into.",
+            "Histories of 20 (thorough 60) public calls over three versions of a world that share every URL and the pseudo root but differ at every node, with the package-level loader swapped between calls and caller-reused option structures (one kept on the same root, one pointed at three roots in turn, also through by-value copies; snapshots read every field, unexported ones included); anything remembered from an earlier call shows up as a wrong marker, a missing loader request, a changed option or a changed package cache (keys, identity, JSON vs pinned meta-schemas); calls with nil options must read relative references from the working directory whatever earlier calls walked into.",
             "Worker processes run many histories back to back, so leaks across histories are seen too; the built-in meta-schemas are compared with pinned copies pushed through the same codec.",
             "DESIGN.md §3 C16"),
     "C17": ("exploration",
@@ -97,7 +97,7 @@ CLAIMED = {
             "Pre-loaded entries are generic JSON under canonical URLs, as the loader path would have stored them.",
             "DESIGN.md §3 C18"),
     "C19": ("exploration",
-            "independent validator as oracle: python jsonschema Draft4Validator (pinned Swagger 2.0 schema) over documents recorded by the worker: generated input, re-encoding after decode, result of a successful ExpandSpec",
+            "independent validator as oracle: python jsonschema Draft4Validator (pinned Swagger 2.0 schema) over documents recorded by the worker: generated input, re-encoding after decode, result of a successful ExpandSpec under default options and under one of skip-schemas / absolute-circular-ref / continue-on-error / both",
             "Schema-valid documents from the generator (checked valid by the independent validator before use) are round-tripped and expanded by the real code; the recorded outputs are validated by the same independent validator; each failure is classified by generalised instance path and validator keyword.",
             "Format checking off; python jsonschema with its bundled draft-04 meta-schema, nothing fetched.",
             "DESIGN.md §3 C19"),
